@@ -1625,6 +1625,17 @@ async fn hist_case(case: u64, rng: &mut Rng, st: &mut Stats, len: usize) -> Resu
             }
         }
         let lifecycle_observed = |d: Option<usize>| d.map(|d| tainted.contains(&d)).unwrap_or(false);
+        // The injected error is placed by mutation-attempt index; how many backend writes a request
+        // issues depends on state the variants do not share (a metadata flush skips objects that are
+        // not dirty), so the same faulted request may fail in one world and succeed in another. The
+        // worlds have then legitimately diverged: the history ends here (counted).
+        if matches!(op, HOp::Faulty(..)) {
+            let live: Vec<u16> = statuses.iter().copied().filter(|s| *s != 0).collect();
+            if live.windows(2).any(|w| w[0] != w[1]) {
+                st.count("hist_ended_at_fault_hitting_worlds_differently");
+                break;
+            }
+        }
         // operations that do not concern B must be answered alike in every variant
         if op.db() != Some(1) && !lifecycle_observed(op.db()) && (statuses[1] != statuses[0] || statuses[2] != statuses[0]) {
             st.inconclusive(format!("hist: admin operation {op:?} answered differently across variants {statuses:?}; history {trace:?}"));
